@@ -432,11 +432,60 @@ example : endsEmptyR ([0x22, 0x5c, 0x22, 0x22] : Bytes).reverse = true ∧ ¬ Em
   refine ⟨by decide, ?_⟩
   intro h; cases h
 
+/-! ### the array case of avoidFlush's first test is necessary (the pattern of seed R4Kb)
+
+The regenerated literals of avoidFlush (Tie A) do not change when its first case is narrowed from
+`Last.Length() == 0` to `Last.isObject() && Last.Length() == 0` (no literal is added or removed), so that change is
+invisible to `tie_avoidFlush_suffixes`; it is caught by the harness (Marshal vs MarshalWrite).  At model level the
+case is load-bearing: with the narrowed test, one flush directly after `[` makes UnwriteEmptyObjectMember miss the
+empty array, and the stream depends on the schedule. -/
+
+/-- avoidFlush with its first case narrowed to objects. -/
+def avoidFlushNarrow (e : Enc) : Bool :=
+  if e.last.isObj && e.last.len == 0 then true
+  else if e.last.needValue then true
+  else if e.last.needName && decide (e.buf.length ≥ 2) then endsEmptyR e.buf.reverse
+  else false
+
+def flushNarrow (e : Enc) (a : WAct) : Enc :=
+  if avoidFlushNarrow e then e else
+  let b := if e.depth == 1 && !e.omitNL then e.buf ++ [0x0a] else e.buf
+  match a with
+  | .ok => { e with delivered := e.delivered ++ b, buf := [] }
+  | .fail n => { e with delivered := e.delivered ++ b.take n, buf := b.drop n }
+
+def stepNarrow (e : Enc) (op : Op) (s : Sched) : Enc :=
+  match op with
+  | .tok t ws =>
+    match write e t ws with
+    | none => e
+    | some e' => if e'.stack.isEmpty || s.want then flushNarrow e' s.act else e'
+  | .unwriteEmpty => (unwriteEmpty e).1
+  | .unwriteName => unwriteName e
+
+def runNarrow (e : Enc) : List (Op × Sched) → Enc
+  | [] => e
+  | (op, s) :: rest => runNarrow (stepNarrow e op s) rest
+
+/-- `{"a":[` `]` + UnwriteEmptyObjectMember + `}`: without a flush the member is retracted (`{}`), with one flush
+after `[` (allowed by the narrowed test) it stays (`{"a":[]}`); the real avoidFlush gives `{}` under both. -/
+theorem avoidFlush_array_case_needed :
+    let ops : List Op := [.tok .openObj [], .tok (.str [0x61]) [], .tok .openArr [], .tok .closeArr [], .unwriteEmpty, .tok .closeObj []]
+    (runNarrow {} (ops.map (fun o => (o, ⟨false, .ok⟩)))).total = [0x7b, 0x7d, 0x0a] ∧
+    (runNarrow {} (ops.map (fun o => (o, ⟨true, .ok⟩)))).total = [0x7b, 0x22, 0x61, 0x22, 0x3a, 0x5b, 0x5d, 0x7d, 0x0a] ∧
+    (run {} (ops.map (fun o => (o, ⟨true, .ok⟩)))).total = [0x7b, 0x7d, 0x0a] := by decide
+
 /-! ### full statements that are not proved (validated by the harness only) -/
 
-/-- Beyond the calling discipline: UnwriteEmptyObjectMember called at moments where the marshalers never call it
-(twice in a row, or after a rejected call), on the undisciplined `run`.  `flush_indep_full` above covers every
-sequence in which the call directly follows the accepted call that completed the member value. -/
+/-- Beyond the calling discipline: UnwriteEmptyObjectMember called where the marshalers never call it — twice in a
+row, or after a rejected call — on the undisciplined `run`.  NOT DECIDED.  `run` and `runD` differ only in states
+reached by a successful UnwriteEmptyObjectMember (Length()-2 > 0, not fresh); there a second call scans the member
+written BEFORE the retracted one.  No model counterexample was found in the patterns examined: if that earlier member
+ends like an empty value, the flush after it was suppressed (avoidFlush case 3), and so were the flushes after the
+retracted member's name and value, hence the earlier member is wholly in `buf` under every schedule.  A proof needs
+the invariant to remember, for every member boundary still in `buf`, that the buffer before it is again
+"unwrite-compatible" with the whole stream (a predicate recursive in Length()/2, threaded through `MemberHead`);
+`flush_indep_full` proves the statement for every sequence the marshalers can produce. -/
 def flush_indep_undisciplined_full : Prop :=
   ∀ (omitNL : Bool) (l₁ l₂ : List (Op × Sched)), l₁.map Prod.fst = l₂.map Prod.fst → (∀ p ∈ l₁, SaneCall p.1) →
     (run { omitNL := omitNL } l₁).total = (run { omitNL := omitNL } l₂).total
